@@ -38,6 +38,26 @@ W_MIX(sl, long, ui, unsigned int)
 W_MIX(ul, unsigned long, uc, unsigned char)
 W_MIX(ui, unsigned int, uc, unsigned char)
 
+/* mixed widths for the bit / store / exchange operations: the operation acts on the *object's* width whatever the type of the
+ * value expression (the value is converted to the object's type first) */
+#define W_MIX2(T, TY, V, VY) \
+	void w_and__##T##__##V(TY *p, VY v) { uatomic_and(p, v); } \
+	void w_or__##T##__##V(TY *p, VY v) { uatomic_or(p, v); } \
+	void w_set__##T##__##V(TY *p, VY v) { uatomic_set(p, v); } \
+	TY w_xchg__##T##__##V(TY *p, VY v) { return uatomic_xchg(p, v); } \
+	TY w_cmpxchg__##T##__##V(TY *p, VY o, VY n) { return uatomic_cmpxchg(p, o, n); }
+
+W_MIX2(us, unsigned short, uc, unsigned char)
+W_MIX2(us, unsigned short, sc, signed char)
+W_MIX2(ui, unsigned int, uc, unsigned char)
+W_MIX2(ui, unsigned int, us, unsigned short)
+W_MIX2(ul, unsigned long, uc, unsigned char)
+W_MIX2(ul, unsigned long, ss, short)
+W_MIX2(ul, unsigned long, ui, unsigned int)
+W_MIX2(sl, long, si, int)
+W_MIX(us, unsigned short, uc, unsigned char)
+W_MIX(ui, unsigned int, us, unsigned short)
+
 /* explicit memory orders for load/store */
 #define W_MO(T, TY) \
 	TY w_load_relaxed__##T(TY *p) { return uatomic_load(p, CMM_RELAXED); } \
